@@ -17,6 +17,7 @@ import random
 import struct
 import subprocess
 
+from vf import streams
 from vf.enc import elf as W
 from vf.choose import RndChooser, composite_from
 
@@ -720,7 +721,9 @@ def run_case(ctx, case):
     ELFFile = lib()['ELFFile']
     idx = info['idx']
     try:
-        ef = ELFFile(io.BytesIO(data))
+        st0, skind = streams.pick(data)        # BytesIO, minimal read/seek/tell object, memory map or real file
+        ctx.count('stream.' + skind)
+        ef = ELFFile(st0)
     except Exception as e:  # noqa
         ctx.fail_exc('open', e, case)
         _register(ctx, case, info, data)
